@@ -480,6 +480,19 @@ def check(pid, tier, seed):
                           **({"m": "alt3"} if st.get("op") == "rot" and st.get("f") == "i" else {})) for st in sc["steps"]]
             wild.append(steps)
     add("wild", wild[:max(10, len(scens) // 10)])
+    # the integer fields byte by byte: every scenario that alters Term (or Index) is repeated with the flipped bit in each of
+    # the eight bytes of the value (the model's alteration is "another value"; which bits differ is the harness's choice)
+    lanes = []
+    for sc in list(scens):
+        hit = [k for k, st in enumerate(sc["steps"]) if (st.get("cp") and st.get("cf") in ("t", "i") and st.get("cm") != "alt1") or
+               (st.get("op") == "rot" and st.get("f") in ("t", "i") and st.get("m") != "alt1")]
+        if hit and len(lanes) < 8 * (12, 60)[0 if tier == "quick" else 1]:
+            for lane in range(8):
+                steps = [dict(st) for st in sc["steps"]]
+                for k in hit:
+                    steps[k]["cm" if steps[k].get("cp") else "m"] = "lane%d" % lane
+                lanes.append(steps)
+    add("lane", lanes)
     for st in SELFTESTS:
         scens.append(mk_scen(st["id"], st["steps"], seed))
     for st in DIRECTED:
